@@ -1,0 +1,20 @@
+//go:build verif
+
+package p2p
+
+import pubsub "github.com/libp2p/go-libp2p-pubsub"
+
+// VerifValidator returns the combined validator that libp2p would run for
+// messages on the given topic (verification hook, build tag verif).
+func (m *P2PMessaging) VerifValidator(topic string) pubsub.ValidatorEx {
+	return m.validatorRegistry.GetCombinedValidator(topic)
+}
+
+// VerifTopics returns the topics that have at least one validator registered.
+func (m *P2PMessaging) VerifTopics() []string {
+	topics := []string{}
+	for t := range m.validatorRegistry {
+		topics = append(topics, t)
+	}
+	return topics
+}
